@@ -1,5 +1,6 @@
 import M3d.Basic
 import M3d.Model.CodecIO
+import M3d.Model.CodecListAlloc
 /-! Line-protocol handler for C16 (decoders on arbitrary bytes: outcome class and data). Core-only. -/
 namespace M3d.Drv.C16
 open M3d M3d.Codec M3d.Codec.IO
@@ -36,8 +37,26 @@ def lookupColor (verts : List C3) (colors : List RGB) (p : C3) : String :=
   | some (_, c) => showRGB c
   | none => "-"
 
+def pPair : P (Nat × Nat) := do
+  let t ← tok
+  match t.splitOn ":" with
+  | [a, b] => match a.toNat?, b.toNat? with
+    | some x, some y => pure (x, y)
+    | _, _ => failure
+  | _ => failure
+
+/-- `plycap <declared> <k> <m> <stored:slots>…`: the capacity requests the REAL list loop made for a
+list property with `declared` entries declared and `k` present.  Answer `ok total <slots>` iff they meet
+`requestsOK` (then `M3d.C16.ply_requests_spec_linear` bounds the total). -/
+def plycap (declared k : Nat) (reqs : List (Nat × Nat)) : String :=
+  if requestsOK goAppendSlack declared k reqs then "ok total " ++ toString (sumSlots reqs)
+  else "out-of-policy"
+
 def handleAll (ws : List String) : Option String :=
   match ws with
+  | "plycap" :: rest => do
+    let ((n, k), table) ← run (do let n ← pNat; let k ← pNat; let t ← pCounted pPair; pure ((n, k), t)) rest
+    some (plycap n k table)
   | "stl" :: rest => do
     let (b, t) ← run pFile rest
     some (match stlDecodeMesh widen t.pf32 b with | .ok rs => showRecs64 rs | .error _ => "error")
